@@ -1,5 +1,19 @@
 /-
   C10 — property theorems (model and specification: ShelxModel/C10.lean).
+
+  parse_denote        ∀ component c of the grammar (Valid c), ∀ text t that is `print c` with blanks anywhere and
+                      letters in either case:  parseComp t = ok (denote c).   Numerals of ANY length (induction over
+                      the item list; no bound on numerators/denominators/decimals).
+  print_parse_id      ∀ operator with entries in {-1,0,1}, ∀ number formatter that writes each non-zero translation
+                      as a numeral denoting it:  parseOp (split ',' (toShelxl op)) = ok op.
+  fmtDec_ok / print_parse_id_dec   the model of `str(float)` is such a formatter for every number with ≤ 40 decimals.
+  eq_iff_mod_lattice  eqModel tol a b ↔ same matrix ∧ every translation difference is a whole number, for translations
+                      on a grid 1/N with tol ≤ 1/N (the repaired `__eq__`, tol = 1e-9).
+  card_components     a SYMM line `kw t0, t1, t2` (blanks/tabs anywhere) gives the three denoted rows.
+  literal_table_parsed   91 literal strings with values written by the harness' Python reference (`decide +kernel`).
+
+  Outside the grammar (nothing is claimed, the harness does not generate it): two signs in a row (`1/2+-X`: Python
+  raises SyntaxError from `eval`), an axis twice, two translations, exponents, numerals such as `1.5/3`.
 -/
 import ShelxModel.C10
 import Mathlib.Tactic.Ring
@@ -1124,5 +1138,163 @@ theorem print_parse_id_dec (o : Op) (hu : o.unit = true)
 example : splitComma (toShelxl fmtDec [⟨(0, -1, 0), -1/4⟩, ⟨(1, -1, 0), 0⟩, ⟨(0, 0, 1), 3/2⟩]) =
     ["-0.25-Y".toList, " +X-Y".toList, " 1.5+Z".toList] := by
   decide +kernel
+
+/-! ### the SYMM card -/
+
+theorem flatten_splitWsAux (s cur : List Char) :
+    (splitWsAux s cur).flatten = cur.reverse ++ s.filter (fun c => !isWs c) := by
+  induction s generalizing cur with
+  | nil => by_cases h : cur = [] <;> simp [splitWsAux, h]
+  | cons c t ih =>
+    by_cases hc : isWs c = true
+    · by_cases h : cur = [] <;> simp [splitWsAux, hc, h, ih]
+    · simp [splitWsAux, hc, ih]
+
+theorem splitWsAux_append (w rest cur : List Char) (h : ∀ ch ∈ w, isWs ch = false) :
+    splitWsAux (w ++ rest) cur = splitWsAux rest (w.reverse ++ cur) := by
+  induction w generalizing cur with
+  | nil => rfl
+  | cons x w ih =>
+    have hx : isWs x = false := h x (by simp)
+    have hw : ∀ ch ∈ w, isWs ch = false := fun ch hch => h ch (by simp [hch])
+    simp [splitWsAux, hx, ih _ hw]
+
+/-- the card hands over what follows the keyword, blanks removed, split at the commas -/
+theorem symmCard_eq (kw body : List Char) (hne : kw ≠ []) (hkw : ∀ ch ∈ kw, isWs ch = false) :
+    symmCard (kw ++ ' ' :: body) = splitComma (body.filter (fun c => !isWs c)) := by
+  have hr : kw.reverse ≠ [] := by simpa using hne
+  have hsp : isWs ' ' = true := by decide
+  simp only [symmCard, splitWs]
+  rw [splitWsAux_append _ _ _ hkw]
+  simp only [List.append_nil, splitWsAux, hsp, if_true, hr, if_false, List.reverse_reverse, List.tail_cons,
+    flatten_splitWsAux]
+  simp
+
+/-- **card_components** — a SYMM line `kw  t0 , t1 , t2` (blanks and tabs anywhere after the keyword, the three
+    components in any layout of valid grammar components) gives the operator the three components denote. -/
+theorem card_components (kw body t0 t1 t2 : List Char) (c0 c1 c2 : Component)
+    (hne : kw ≠ []) (hkw : ∀ ch ∈ kw, isWs ch = false)
+    (hb : body.filter (fun c => !isWs c) = t0 ++ ',' :: (t1 ++ ',' :: t2))
+    (n0 : ',' ∉ t0) (n1 : ',' ∉ t1) (n2 : ',' ∉ t2)
+    (v0 : Valid c0 = true) (v1 : Valid c1 = true) (v2 : Valid c2 = true)
+    (l0 : Relayout (print c0) t0) (l1 : Relayout (print c1) t1) (l2 : Relayout (print c2) t2) :
+    parseOp (symmCard (kw ++ ' ' :: body)) = .ok [denoteRow c0, denoteRow c1, denoteRow c2] := by
+  rw [symmCard_eq kw body hne hkw, hb, splitComma, splitCommaAux_piece _ _ n0, splitCommaAux_piece _ _ n1,
+    splitCommaAux_last _ n2]
+  simp only [parseOp, parse_denote c0 v0 t0 l0, parse_denote c1 v1 t1 l1, parse_denote c2 v2 t2 l2, denoteRow]
+
+example : symmCard "symm  -x, 1/2 + y ,\t-z+ 1/3".toList = ["-x".toList, "1/2+y".toList, "-z+1/3".toList] := by
+  decide +kernel
+
+
+/-! ### a literal table (strings and values written by the Python reference of the harness, not by `print`/`denote`) -/
+
+def parsesTo (s : String) (c : Coef) (t : Rat) : Bool :=
+  match parseComp s.toList with
+  | .ok p => p.1 = c && p.2 = t
+  | .error _ => false
+
+def literalTable : List (String × Coef × Int × Nat) := [
+  ("1/2", (0, 0, 0), 1, 2),
+  ("x+  1/3 ", (1, 0, 0), 1, 3),
+  ("+9/12-y", (0, -1, 0), 3, 4),
+  (" 1/4+Z ", (0, 0, 1), 1, 4),
+  ("Z+3/2", (0, 0, 1), 3, 2),
+  ("10/ 12+ X+ y ", (1, 1, 0), 5, 6),
+  ("+x-5/8+y", (1, 1, 0), -5, 8),
+  ("X  +Y  +2 /4 ", (1, 1, 0), 1, 2),
+  ("+X-Y+0.6667", (1, -1, 0), 6667, 10000),
+  ("  +3/2-  X +Z ", (-1, 0, 1), 3, 2),
+  ("x+1/12+z", (1, 0, 1), 1, 12),
+  ("+X -Z  + 1/6", (1, 0, -1), 1, 6),
+  ("X+Z+0.0", (1, 0, 1), 0, 1),
+  ("1 3  /  12+Y+  x", (1, 1, 0), 13, 12),
+  ("+y-3/12+x", (1, 1, 0), -1, 4),
+  ("Y+X+4/  6 ", (1, 1, 0), 2, 3),
+  ("+Y-X+2", (-1, 1, 0), 2, 1),
+  ("+.5-  y  +Z ", (0, -1, 1), 1, 2),
+  ("y+6/12+z", (0, 1, 1), 1, 2),
+  ("+  Y-Z+1/ 8", (0, 1, -1), 1, 8),
+  ("Z+X", (1, 0, 1), 0, 1),
+  (" 0.125+z+X ", (1, 0, 1), 1, 8),
+  ("+z-8/12+x", (1, 0, 1), -2, 3),
+  ("Z+  X  +4  / 8", (1, 0, 1), 1, 2),
+  ("2/3+Z+Y", (0, 1, 1), 2, 3),
+  ("+1  .5-Z+y", (0, 1, -1), 3, 2),
+  ("z+11/12+y", (0, 1, 1), 11, 12),
+  ("  +Z-Y+  6/8", (0, -1, 1), 3, 4),
+  ("2/3+X+Y+Z", (1, 1, 1), 2, 3),
+  ("-3  /1  2+  X  -y+Z", (1, -1, 1), -1, 4),
+  ("+1.5-x+y+z", (-1, 1, 1), 3, 2),
+  ("X-4  /  6-  Y+ Z ", (1, -1, 1), -2, 3),
+  ("X+11/12+Y+Z", (1, 1, 1), 11, 12),
+  (" - X  +2-y +Z", (-1, -1, 1), 2, 1),
+  ("+x-y+6/8+z", (1, -1, 1), 3, 4),
+  ("X  -Y-0 .  25  +  Z", (1, -1, 1), -1, 4),
+  ("X+Y+Z+3/4", (1, 1, 1), 3, 4),
+  (" -x+y-z+6/1 2 ", (-1, 1, -1), 1, 2),
+  ("+x-y+z+0.16667", (1, -1, 1), 16667, 100000),
+  ("-1/8+X - Z  +Y", (1, 1, -1), -1, 8),
+  ("+4/3-X+Z+Y", (-1, 1, 1), 4, 3),
+  ("x- 1/  2- z+y", (1, 1, -1), -1, 2),
+  ("x+2/12+z+y", (1, 1, 1), 1, 6),
+  ("- X+0.12  5-Z +Y", (-1, 1, -1), 1, 8),
+  ("+X-Z+2/6+Y", (1, 1, -1), 1, 3),
+  ("  x-z -9/  12  + Y", (1, 1, -1), -3, 4),
+  ("x+z+1+y", (1, 1, 1), 1, 1),
+  ("  -X +Z-Y+4 / 8", (-1, -1, 1), 1, 2),
+  ("+X-Z+Y+0.5", (1, 1, -1), 1, 2),
+  ("-  2  /3  +y  -x  +z", (-1, 1, 1), -2, 3),
+  ("+4/12-y+x+z", (1, -1, 1), 1, 3),
+  ("  0  .  3 33  3-Y-X+Z", (-1, -1, 1), 3333, 10000),
+  ("Y+5/6+X+Z", (1, 1, 1), 5, 6),
+  ("-Y+  11/ 12-  x+z", (-1, -1, 1), 11, 12),
+  ("+y-1.0+x+z", (1, 1, 1), -1, 1),
+  ("Y  -  X-  7/8+Z", (-1, 1, 1), -7, 8),
+  ("Y+X+0.75+Z", (1, 1, 1), 3, 4),
+  ("-Y+x -Z+3/4", (1, -1, -1), 3, 4),
+  ("+y-x+z+7/12", (-1, 1, 1), 7, 12),
+  ("Y-X-Z+ 0.83 333", (-1, 1, -1), 83333, 100000),
+  ("+2/8-Y+Z+X", (1, -1, 1), 1, 4),
+  (" 5/4  -Y-Z+X", (1, -1, -1), 5, 4),
+  ("y+1/3+z+x", (1, 1, 1), 1, 3),
+  ("- Y+2/1  2-  Z+  X", (1, -1, -1), 1, 6),
+  ("+Y-0.375+Z+X", (1, 1, 1), -3, 8),
+  ("Y-  z-  3/  6 +x", (1, 1, -1), -1, 2),
+  ("y+z+10/12+x", (1, 1, 1), 5, 6),
+  ("-Y+  Z-1+  X", (1, -1, 1), -1, 1),
+  ("+Y-Z+X+5/8", (1, 1, -1), 5, 8),
+  ("Y -z-x+.5 ", (-1, 1, -1), 1, 2),
+  ("+1/4-z+x+y", (1, 1, -1), 1, 4),
+  (" 5 /12-Z-  X+ Y ", (-1, 1, -1), 5, 12),
+  ("0.6667+Z+X+Y", (1, 1, 1), 6667, 10000),
+  ("- z  +5/6- x +  Y ", (-1, 1, -1), 5, 6),
+  ("+z-3/2+x+y", (1, 1, 1), -3, 2),
+  ("  Z-  0.05 -X +  Y", (-1, 1, 1), -1, 20),
+  ("Z+X+1/12+Y", (1, 1, 1), 1, 12),
+  (" -  z +x-0.75+Y", (1, 1, -1), -3, 4),
+  ("+z-x+y+1/6", (-1, 1, 1), 1, 6),
+  (" Z  -X-Y+8  /12", (-1, -1, 1), 2, 3),
+  ("Z+X+Y+0.0", (1, 1, 1), 0, 1),
+  ("3/8-z-  Y+X", (1, -1, -1), 3, 8),
+  ("13/12+z+y+x", (1, 1, 1), 13, 12),
+  ("  -Z+1  /  3- Y +X ", (1, -1, -1), 1, 3),
+  ("+Z-3/12+Y+X", (1, 1, 1), -1, 4),
+  ("  Z-1.5-Y+X", (1, -1, 1), -3, 2),
+  ("z+y+4/6+x", (1, 1, 1), 2, 3),
+  (" -Z+ Y  -10/12+ X ", (1, 1, -1), -5, 6),
+  ("+Z-Y+2+X", (1, -1, 1), 2, 1),
+  ("z-  y  -X+6/8", (-1, -1, 1), 3, 4),
+  ("z+y+x+0.25", (1, 1, 1), 1, 4)
+]
+
+/-- every literal line of the table is parsed to the stated row and translation -/
+theorem literal_table_parsed :
+    literalTable.all (fun e => parsesTo e.1 e.2.1 (mkRat e.2.2.1 e.2.2.2)) = true := by
+  decide +kernel
+
+
+/-- outside the grammar: two signs in a row are not read (Python: `eval('1./2+.')` raises SyntaxError) -/
+example : parsesTo "1/2+-X" (-1, 0, 0) (1/2) = false := by decide +kernel
 
 end Shelx.C10
